@@ -46,6 +46,9 @@ class ConclusionSelector(LogicalOperator, ABC):
         super()._reset_only_my_cache_()
         # which conclusions were already drawn belongs to one evaluation, like the de-duplication state
         self.concluded_before = {True: SeenSet(), False: SeenSet()}
+        # the conclusions selected for the row that is currently handed out, an evaluation that was abandoned while
+        # it was suspended there never cleared them
+        self._conclusion_.clear()
 
     def _copy_expression_(self, postfix: str) -> SymbolicExpression:
         cp = super()._copy_expression_(postfix)
